@@ -28,6 +28,7 @@ PreVerbs(t, i) ==
         \o MapS(b, LAMBDA c : MDrop(i, <<Col(c)>>))                                         \* hidden column
         \o MapS(a, LAMBDA c : MRename(i, <<[c |-> Col(c), n |-> "k"]>>))
         \o MapS(b, LAMBDA c : MRename(i, <<[c |-> Col(c), n |-> "c"]>>))                    \* may collide with the other side's c
+        \o MapS(b, LAMBDA c : MRename(i, <<[c |-> Col(c), n |-> "c_r"]>>))                  \* collides with <other side's c> + user suffix "_r"
         \o <<MAlias(i, "s", FALSE), MAlias(i, t.name, TRUE)>>
         \o MapS(a, LAMBDA c : MMutate(i, <<KV("z", Fn2("fill_null", Col(c), LitI(0)))>>))   \* null-absorbing computed column
 
